@@ -21,7 +21,8 @@ EXPLANATION = (
     "survival function (scipy parametrisation; log-normal from its own mean and standard deviation) at age = end of year t minus "
     "inflow instant, with the parameters of that cohort and label; it must be zero for cohorts later than the year; the "
     "outflow-probability table must be the negative differences of the survival table and survival + cumulative outflow "
-    "probability must be identically 1. Monotonicity and [0,1] then follow from scipy's survival functions (not decided).")
+    "probability must be identically 1. Monotonicity and [0,1] then follow from scipy's survival functions (not decided). "
+    "Also after re-parametrisation of a model whose tables had been read, with quadrature settings assigned as attributes, and on an equidistant grid (where 'all intervals equal' shortcuts are taken).")
 TECHNIQUE = "static analysis: exact table check on AST constants + abstract interpretation of the lifetime code over symbolic rational forms with uninterpreted distribution symbols"
 
 
